@@ -13,12 +13,13 @@ structure SimInv3 (I : Sim → Prop) (SendOk : Prio → Ctl → Prop) : Prop whe
   cancel : ∀ x aw, I x → I (cancelSend x aw)
   sendOne : ∀ x p c, SendOk p c → I x → I (sendOne x p c)
   finish : ∀ x aw, I x → I (finishSend x aw)
+  clone : ∀ x f, I x → I (addWaiter x f)
 
 variable {I : Sim → Prop} {SendOk : Prio → Ctl → Prop}
 
 /-- an invariant that does not read the clock is one that does -/
 theorem SimInv2.toInv3 (H : SimInv2 I SendOk) : SimInv3 I SendOk :=
-  ⟨H.turns, H.park, H.drain, fun x t h _ _ => H.now x t h, H.close, H.cancel, H.sendOne, H.finish⟩
+  ⟨H.turns, H.park, H.drain, fun x t h _ _ => H.now x t h, H.close, H.cancel, H.sendOne, H.finish, H.clone⟩
 
 theorem SimInv3.settleAll (H : SimInv3 I SendOk) (fuel : Nat) {x : Sim} (h : I x) :
     ∀ s ∈ settleAll fuel x.st, I { x with st := s } := by
@@ -181,6 +182,12 @@ theorem SimInv3.stepOp (H : SimInv3 I SendOk) {x : Sim} (o : Op) (ho : OpOkFor2 
   | inject p cs aw =>
     simp only [Jm.stepOp] at hy
     exact injectAll_ind I p cs aw (fun z s' hz hs' => H.turns z hz s' hs') (fun z hz => H.doSend p cs aw ho hz) 50 h y hy
+  | clone w =>
+    simp only [Jm.stepOp, List.mem_singleton] at hy; subst hy
+    unfold cloneWaiter
+    split
+    · exact H.clone _ _ h
+    · exact H.cancel x true h
 
 theorem SimInv3.runOps (H : SimInv3 I SendOk) (ops : List Op) (hok : ∀ o ∈ ops, OpOkFor2 SendOk o) {x : Sim} (h : I x) :
     ∀ y ∈ runOps x ops, I y := by
